@@ -92,8 +92,16 @@ def memo_key_obligations():
                         while k in assigned and len(assigned[k]) == 1 and k not in params:
                             k = assigned[k][0]
                         resolved.add(k)
-                    ok1 = all(k in params or (rel == "graphql.type.schema" and k.endswith(".name")
-                                              and k[:-5] in params) for k in resolved)
+                    def allowed(k):
+                        if k in params or (rel == "graphql.type.schema" and k.endswith(".name") and k[:-5] in params):
+                            return True
+                        try:
+                            t = ast.parse(k, mode="eval").body
+                        except SyntaxError:
+                            return False
+                        # a tuple of such components determines each of them
+                        return isinstance(t, ast.Tuple) and bool(t.elts) and all(allowed(ast.unparse(e)) for e in t.elts)
+                    ok1 = all(allowed(k) for k in resolved)
                     out.append(_finite(f"{rel}.{fn.name}", "MEMO-M1",
                                        f"the key of self.{attr} determines the argument it caches for",
                                        ok1, f"keys {sorted(resolved)}, parameters {sorted(params)}"))
